@@ -27,6 +27,7 @@ ASSUMPTIONS = ["allocation does not fail", "evbuffer_new/add/add_printf/remove/g
 DESIGN_REF = "DESIGN.md §5 C29"
 
 def obligations(tier):
+    TT, MM = (900, 3) if tier == "quick" else (2400, 6)
     n = 6 if tier == "quick" else 8
     so = max(48, 6 * n + 2)
     D = ["VP_N=%d" % n, "VP_STR_OBJ=%d" % so]
@@ -38,13 +39,13 @@ def obligations(tier):
                 "evbuffer_add_vprintf.0:8", "evbuffer_add_vprintf.1:4", "evbuffer_add_vprintf.2:4"]
     obs = [
         dict(name="decode", harness="C29_codec.c", entry="harness_decode", defines=D, unwind=n + 2, unwindset=US,
-             timeout=600, mem_gb=4, desc="evhttp_decode_uri_internal on exact-size objects, input <= %d symbolic bytes, 3 plus modes" % n),
+             timeout=TT, mem_gb=MM, desc="evhttp_decode_uri_internal on exact-size objects, input <= %d symbolic bytes, 3 plus modes" % n),
         dict(name="uridecode", harness="C29_codec.c", entry="harness_uridecode", defines=D, unwind=n + 2, unwindset=US,
-             timeout=600, mem_gb=4, desc="evhttp_uridecode/evhttp_decode_uri wrappers, C string <= %d" % n),
+             timeout=TT, mem_gb=MM, desc="evhttp_uridecode/evhttp_decode_uri wrappers, C string <= %d" % n),
         dict(name="roundtrip", harness="C29_codec.c", entry="harness_roundtrip", defines=D, unwind=3 * n + 2, unwindset=USB,
-             timeout=600, mem_gb=6, desc="uriencode vs reference encoder + uridecode round trip, <= %d symbolic bytes (NUL allowed with explicit length), both plus modes" % n),
+             timeout=TT, mem_gb=MM, desc="uriencode vs reference encoder + uridecode round trip, <= %d symbolic bytes (NUL allowed with explicit length), both plus modes" % n),
         dict(name="htmlescape", harness="C29_codec.c", entry="harness_htmlescape", defines=D, unwind=6 * n + 2, unwindset=["vp_memcpy.0:7", "ruc_starts.0:8", "evhttp_htmlescape.0:%d" % (n + 1), "evhttp_htmlescape.1:%d" % (n + 1), "vp_cstring.0:%d" % (n + 1)],
-             timeout=600, mem_gb=6, desc="evhttp_htmlescape, C string <= %d" % n),
+             timeout=TT, mem_gb=MM, desc="evhttp_htmlescape, C string <= %d" % n),
     ]
     n = 5 if tier == "quick" else 6
     # exact-size heap objects (VP_ALLOC_EXACT): an overrun of what the functions allocate is a cbmc pointer-check failure
@@ -53,19 +54,19 @@ def obligations(tier):
     obs += [
         dict(name="htmlescape_exact", harness="C29_codec.c", entry="harness_htmlescape", defines=DE, unwind=6 * ne + 2,
              unwindset=["vp_memcpy.0:7", "ruc_starts.0:8", "evhttp_htmlescape.0:%d" % (ne + 1), "evhttp_htmlescape.1:%d" % (ne + 1), "vp_cstring.0:%d" % (ne + 1)],
-             timeout=900, mem_gb=6, desc="evhttp_htmlescape with exact-size allocations (heap overrun = pointer-check failure), C string <= %d" % ne),
+             timeout=TT, mem_gb=MM, desc="evhttp_htmlescape with exact-size allocations (heap overrun = pointer-check failure), C string <= %d" % ne),
         dict(name="uridecode_exact", harness="C29_codec.c", entry="harness_uridecode", defines=DE, unwind=ne + 2, unwindset=US,
-             timeout=900, mem_gb=6, desc="evhttp_uridecode/evhttp_decode_uri with exact-size allocations, C string <= %d" % ne),
+             timeout=TT, mem_gb=MM, desc="evhttp_uridecode/evhttp_decode_uri with exact-size allocations, C string <= %d" % ne),
     ]
     if tier != "quick":
         obs.append(dict(name="uridecode_ndebug", harness="C29_codec.c", entry="harness_uridecode", defines=D, unwind=n + 2, unwindset=US, ndebug=True,
-             timeout=900, mem_gb=4, desc="NDEBUG twin of uridecode (EVUTIL_ASSERT(n >= 0) compiled out as in the shipped build)"))
+             timeout=TT, mem_gb=MM, desc="NDEBUG twin of uridecode (EVUTIL_ASSERT(n >= 0) compiled out as in the shipped build)"))
     for fl, nm in ((-1, "str"), (0, "f0"), (1, "lax"), (2, "last"), (3, "lax_last")):
         lax = fl >= 0 and (fl & 1)
         it = (n + 1) if lax else (n // 3 + 1)       # iterations of the pair loop: every pair consumes >= 1 (lax) / >= 3 (strict) bytes
         obs.append(dict(name="query_" + nm, harness="C29_query.c", entry="harness_query",
              defines=["VP_N=%d" % n, "VP_STR_OBJ=%d" % (n + 2), "VP_FLAGS=%d" % fl],
              unwind=n + 2, unwindset=US + ["event_mm_strdup_.0:%d" % (n + 3), "evhttp_parse_query_impl.0:%d" % (it + 1)],
-             cbmc=["--object-bits", "10"], timeout=900 if tier == "quick" else 2400, mem_gb=3,
+             cbmc=["--object-bits", "10"], timeout=TT, mem_gb=MM,
              desc="evhttp_parse_query_str%s vs reference splitter, C string <= %d" % ("" if fl < 0 else "_flags(flags=%d)" % fl, n)))
     return obs
